@@ -14,7 +14,7 @@ use std::sync::Arc;
 use std::time::{Duration, Instant};
 use vh::args::Args;
 use vh::gen::Rng;
-use vh::rawpeer::RawStream;
+use vh::rawpeer::{RawListener, RawStream};
 use vh::refzmtp;
 use vh::report::{hex, Report};
 use vh::util::{self, Transport};
@@ -291,6 +291,247 @@ async fn e2e_case(rep: &mut Report, rng: &mut Rng, tr: Transport, nsubs: usize) 
       }
     }
   }
+  let _ = tokio::time::timeout(Duration::from_secs(12), ctx.term()).await;
+}
+
+
+// ---- announce: a publisher that filters (libzmq's PUB) -------------------------------------------
+//
+// rzmq's own PUB broadcasts and lets the SUB filter, so between two rzmq sockets a subscription that was never
+// announced goes unnoticed. A publisher that filters at the source (libzmq's PUB, the usual peer) sends only
+// what the subscriber ANNOUNCED on that connection — there "delivers a message iff an active subscription matches"
+// holds only if every active subscription reached every publisher: the ones made before the connection existed, the
+// ones made after, and all of them again after a reconnect. The raw publisher below keeps the announced set the way
+// libzmq does (per connection, last announcement for a topic wins), publishes probe messages filtered by it and the
+// oracle is the usual one: the SUB must hand the application exactly the probes its model subscriptions match.
+
+struct RawPub {
+  stream: RawStream,
+  inbuf: Vec<u8>,
+  greeted: bool,
+  ready_seen: bool,
+  view: std::collections::BTreeSet<Vec<u8>>,
+  announcements: usize,
+  eof: bool,
+}
+
+impl RawPub {
+  async fn accept(lst: &RawListener, dur: Duration) -> Option<RawPub> {
+    let mut stream = tokio::time::timeout(dur, lst.accept()).await.ok()?.ok()?;
+    let mut w = refzmtp::greeting_v3(0, "NULL", false);
+    refzmtp::encode_frame(&refzmtp::ready("PUB", None), &mut w);
+    stream.write_all(&w).await.ok()?;
+    Some(RawPub { stream, inbuf: vec![], greeted: false, ready_seen: false, view: Default::default(), announcements: 0, eof: false })
+  }
+  fn absorb(&mut self) {
+    if !self.greeted {
+      if self.inbuf.len() < 64 {
+        return;
+      }
+      self.inbuf.drain(..64);
+      self.greeted = true;
+    }
+    let (frames, used) = refzmtp::decode_all(&self.inbuf);
+    self.inbuf.drain(..used);
+    for f in frames {
+      if f.command {
+        match refzmtp::parse_command(&f.body) {
+          Some((n, _)) if n == "READY" => self.ready_seen = true,
+          Some((n, d)) if n == "SUBSCRIBE" => {
+            self.view.insert(d);
+            self.announcements += 1;
+          }
+          Some((n, d)) if n == "CANCEL" => {
+            self.view.remove(&d);
+            self.announcements += 1;
+          }
+          _ => {}
+        }
+      } else if !f.more && !f.body.is_empty() && f.body[0] <= 1 {
+        if f.body[0] == 1 {
+          self.view.insert(f.body[1..].to_vec());
+        } else {
+          self.view.remove(&f.body[1..]);
+        }
+        self.announcements += 1;
+      }
+    }
+  }
+  /// read until `want` is the announced set (or the time is up); true if it is
+  async fn settle(&mut self, want: &std::collections::BTreeSet<Vec<u8>>, dur: Duration) -> bool {
+    let end = Instant::now() + dur;
+    loop {
+      if self.ready_seen && &self.view == want {
+        // one more short read: an announcement still in flight would change the view again
+        let (b, eof) = self.stream.read_for(Duration::from_millis(40), 0).await;
+        self.eof |= eof;
+        self.inbuf.extend(b);
+        self.absorb();
+        if &self.view == want {
+          return true;
+        }
+      }
+      if Instant::now() >= end || self.eof {
+        return self.ready_seen && &self.view == want;
+      }
+      let (b, eof) = self.stream.read_for(Duration::from_millis(50), 1).await;
+      self.eof |= eof;
+      self.inbuf.extend(b);
+      self.absorb();
+    }
+  }
+  fn would_send(&self, first: &[u8]) -> bool {
+    self.view.iter().any(|t| first.starts_with(t))
+  }
+}
+
+async fn announce_case(rep: &mut Report, rng: &mut Rng, tr: Transport, case_no: usize) {
+  let ctx = util::new_ctx();
+  let sub = ctx.socket(SocketType::Sub).unwrap();
+  util::set_i32(&sub, opt::RCVTIMEO, 400).await;
+  util::set_i32(&sub, opt::RECONNECT_IVL, 40).await;
+  let topics: Vec<Vec<u8>> = vec![b"".to_vec(), b"a".to_vec(), b"ab".to_vec(), b"abc".to_vec(), b"b".to_vec(), vec![0u8], vec![0xFF, 0x00], b"weather/".to_vec(), vec![0x01, b'x']];
+  let mut model: BTreeMap<Vec<u8>, usize> = BTreeMap::new();
+  let mut log: Vec<String> = vec![];
+  let mk_listener = |i: usize| {
+    let tr = tr;
+    async move {
+      match tr {
+        Transport::Ipc => RawListener::bind_unix(&format!("{}/c12ann-{}-{}-{}.sock", util::ipc_dir(), std::process::id(), case_no, i)).await,
+        _ => RawListener::bind_tcp().await,
+      }
+    }
+  };
+  // a publisher is one listener; its current connection (if any) carries the announced view
+  let mut listeners: Vec<(RawListener, String)> = vec![];
+  let mut conns: Vec<Option<RawPub>> = vec![];
+  let mut seq = 0u32;
+  let steps = rng.range(10, 18);
+  let mut verified = 0usize;
+  for step in 0..steps {
+    // --- one event
+    let r = rng.range(0, 100);
+    if listeners.is_empty() && step >= 2 || (r < 12 && listeners.len() < 3) {
+      // a publisher appears late: the subscriptions made so far must be announced to it
+      let Ok((l, ep)) = mk_listener(listeners.len()).await else {
+        rep.inconclusive("raw listener".to_string());
+        break;
+      };
+      let _ = sub.connect(&ep).await;
+      let c = RawPub::accept(&l, util::scaled(Duration::from_secs(3))).await;
+      if c.is_none() {
+        rep.inconclusive(format!("the SUB never connected to publisher {} over {}", listeners.len(), tr.name()));
+        break;
+      }
+      log.push(format!("publisher {} attached", listeners.len()));
+      listeners.push((l, ep));
+      conns.push(c);
+    } else if r < 24 && !conns.is_empty() {
+      // a publisher loses its connection: the SUB reconnects and must announce everything again
+      let i = rng.range(0, conns.len() - 1);
+      if let Some(c) = conns[i].take() {
+        c.stream.set_linger0();
+        drop(c);
+      }
+      let c = RawPub::accept(&listeners[i].0, util::scaled(Duration::from_secs(4))).await;
+      if c.is_none() {
+        rep.inconclusive(format!("the SUB did not reconnect to publisher {} over {} within 4 s", i, tr.name()));
+        break;
+      }
+      log.push(format!("publisher {} connection reset, reconnected", i));
+      conns[i] = c;
+    } else {
+      let t = rng.pick(&topics).clone();
+      if rng.chance(3, 5) {
+        sub.set_option_raw(opt::SUBSCRIBE, &t).await.unwrap();
+        *model.entry(t.clone()).or_insert(0) += 1;
+        log.push(format!("sub {}", hex(&t)));
+      } else {
+        let _ = sub.set_option_raw(opt::UNSUBSCRIBE, &t).await;
+        if let Some(n) = model.get_mut(&t) {
+          *n = n.saturating_sub(1);
+        }
+        log.push(format!("unsub {}", hex(&t)));
+      }
+    }
+    if conns.is_empty() {
+      continue;
+    }
+    // --- quiescent point: every publisher's announced view against the model, then a filtered burst
+    let want: std::collections::BTreeSet<Vec<u8>> = model.iter().filter(|(_, n)| **n > 0).map(|(k, _)| k.clone()).collect();
+    let mut views_ok = true;
+    for (i, c) in conns.iter_mut().enumerate() {
+      let Some(c) = c else { continue };
+      let ok = c.settle(&want, util::scaled(Duration::from_millis(1500))).await;
+      rep.case(&("announce", tr, step, i, &want, c.announcements), true);
+      if !ok {
+        views_ok = false;
+        let missing: Vec<String> = want.iter().filter(|t| !c.view.contains(*t)).map(|t| hex(t)).collect();
+        let stale: Vec<String> = c.view.iter().filter(|t| !want.contains(*t)).map(|t| hex(t)).collect();
+        if c.eof || !c.ready_seen {
+          rep.inconclusive(format!("publisher {}: connection ended or no READY (eof={}, ready={})", i, c.eof, c.ready_seen));
+        } else if !missing.is_empty() {
+          rep.violation(
+            format!("subscription_not_announced|{}", tr.name()),
+            format!("a filtering publisher ({} of {}, over {}) was not told about active subscription(s) {:?} within 1.5 s of the last change: it will never send what they match", i, listeners.len(), tr.name(), missing),
+            json!({"history": log, "announced": c.view.iter().map(|t| hex(t)).collect::<Vec<_>>(), "active": want.iter().map(|t| hex(t)).collect::<Vec<_>>()}),
+          );
+        } else {
+          // only wasteful: the SUB filters what it does not want. Recorded, not judged.
+          rep.sample(json!({"stale_announcement": stale, "publisher": i, "transport": tr.name()}));
+        }
+      }
+    }
+    if !views_ok {
+      break;
+    }
+    // burst from each publisher, filtered by ITS view; the SUB must deliver exactly what the model matches
+    let mut want_msgs: Vec<Vec<u8>> = vec![];
+    for (i, c) in conns.iter_mut().enumerate() {
+      let Some(c) = c else { continue };
+      let mut out = vec![];
+      for _ in 0..rng.range(3, 9) {
+        let mut first = rng.pick(&topics).clone();
+        first.extend(format!("#p{}#{}", i, seq).into_bytes());
+        seq += 1;
+        if c.would_send(&first) {
+          out.extend(refzmtp::message(&[&first]));
+        }
+        if ref_matches(&model, &first) {
+          want_msgs.push(first);
+        }
+      }
+      let _ = c.stream.write_all(&out).await;
+    }
+    let mut got: Vec<Vec<u8>> = vec![];
+    while got.len() < want_msgs.len() {
+      match tokio::time::timeout(util::scaled(Duration::from_millis(1200)), sub.recv()).await {
+        Ok(Ok(m)) => got.push(m.data().unwrap_or(&[]).to_vec()),
+        _ => break,
+      }
+    }
+    // anything beyond the expected ones?
+    while let Ok(Ok(m)) = tokio::time::timeout(Duration::from_millis(60), sub.recv()).await {
+      got.push(m.data().unwrap_or(&[]).to_vec());
+    }
+    let mut g = got.clone();
+    let mut w = want_msgs.clone();
+    g.sort();
+    w.sort();
+    verified += 1;
+    if g != w {
+      let missing: Vec<String> = w.iter().filter(|m| !g.contains(m)).map(|m| hex(m)).collect();
+      let extra: Vec<String> = g.iter().filter(|m| !w.contains(m)).map(|m| hex(m)).collect();
+      rep.violation(
+        format!("{}|filtering_publisher|{}", if !extra.is_empty() { "sub_delivered_non_matching" } else { "sub_missed_matching" }, tr.name()),
+        format!("SUB over {} with {} filtering publisher(s): delivered {} of {} matching probes ({} unexpected)", tr.name(), listeners.len(), g.len() - extra.len(), w.len(), extra.len()),
+        json!({"history": log, "missing": missing, "unexpected": extra}),
+      );
+      break;
+    }
+  }
+  rep.sample(json!({"announce_case": case_no, "transport": tr.name(), "publishers": listeners.len(), "quiescent_points_verified": verified, "events": log.len()}));
+  drop(conns);
   let _ = tokio::time::timeout(Duration::from_secs(12), ctx.term()).await;
 }
 
@@ -812,6 +1053,18 @@ fn main() {
         if args.mine(i) {
           rt.block_on(resume_case(&mut rep, *tr, *to));
         }
+      }
+      util::cleanup_ipc_dir();
+    }
+    Some("announce") => {
+      let rt = util::runtime(2);
+      let n = if args.thorough() { 60 } else { 12 };
+      for i in 0..n {
+        if !args.mine(i) {
+          continue;
+        }
+        let tr = [Transport::Tcp, Transport::Ipc][i % 2];
+        util::guarded(&rt, announce_case(&mut rep, &mut rng, tr, i));
       }
       util::cleanup_ipc_dir();
     }
